@@ -116,6 +116,9 @@ class DenseEvaluator(object):
             return [(0.0, nd[1])]
         if k == 'ref':
             return self.ev(self.defs[nd[1]])
+        if k in ('unless', 'unless_b'):
+            from ..specgen import desugar
+            return self.ev(desugar(nd))
         if k in ('neg', 'abs', 'sqrt', 'exp', 'ln'):
             return _unary(self.ev(nd[1]), lambda v: _arith(k, v))
         if k in ('+', '-', '*', '/', 'pow', 'log'):
